@@ -49,7 +49,21 @@ def run(r):
     quick = r.tier == "quick"
     try:
         corpus = [f for f in IG.corpus_files() if os.path.getsize(f) < 5000]
-        corpus = rnd.sample(corpus, 40 if quick else len(corpus))
+        # always there, whatever the seed: for every corpus directory of a version some host runs natively (3.8-3.13, PyPy 3.8+), the
+        # smallest file of each distinct magic - files of a host's own major.minor whose magic is NOT the host's (3.8 pre-releases, PyPy)
+        # are where a fast-path switch keyed on anything but the exact magic shows
+        by_magic = {}
+        for f in corpus:
+            dname = os.path.basename(os.path.dirname(f))
+            if any(dname.endswith(x) for x in ("3.8", "3.9", "3.10", "3.11", "3.12", "3.13", "pypy38", "pypy39", "pypy310")):
+                with open(f, "rb") as fh:
+                    m = int.from_bytes(fh.read(2), "little")
+                k = (dname, m)
+                if k not in by_magic or (os.path.getsize(f), f) < (os.path.getsize(by_magic[k]), by_magic[k]):
+                    by_magic[k] = f
+        pinned = sorted(by_magic.values())
+        r.cov["pinned_same_minor_files"] = [os.path.relpath(f, C.REPO) for f in pinned]
+        corpus = pinned + [f for f in rnd.sample(corpus, 40 if quick else len(corpus)) if f not in pinned]
         pycs = []
         for v in c12.VERSIONS:
             d = os.path.join(r.wd, "pyc", v)
@@ -66,6 +80,11 @@ def run(r):
         with ThreadPoolExecutor(max_workers=6) as ex:
             per_host = dict(zip(HOSTS, ex.map(under, HOSTS)))
         reported = 0
+        harness_failures = [(h, files[i][1], o) for h in HOSTS for i, o in enumerate(per_host[h]) if isinstance(o, dict) and o.get("outer")]
+        if harness_failures:
+            # the runner itself failed (not xdis raising inside load/disassemble, which is recorded as "raised"): nothing was compared
+            r.violation({"correspondence": "the cross-host runner failed before comparing anything", "first": [str(x)[:300] for x in harness_failures[:3]], "count": len(harness_failures)},
+                        found_input=False, name="C07-correspondence.json")
         for idx, (origin, f) in enumerate(files):
             outs = {h: per_host[h][idx] for h in HOSTS}
             ref_h = origin if origin in HOSTS else "3.12"
@@ -92,6 +111,12 @@ def run(r):
                 res = C.run_impl_op("hostpath", [{"file": f, "path": path, "max_codes": 10} for f in fs], modules=MODS, host=C.HOSTS[v], timeout=1800)
                 for f, o in zip(fs, res):
                     if isinstance(o, dict) and "skip" in o:
+                        continue
+                    if isinstance(o, dict) and o.get("outer"):
+                        if reported < 7:
+                            reported += 1
+                            r.violation({"correspondence": "the loader-path runner failed (the fast-path switch xdis.load.PYTHON_MAGIC_INT is gone, or the harness broke)", "file": os.path.basename(f),
+                                         "host": v, "path": path, "result": str(o)[:300]}, found_input=False, name="C07-correspondence.json")
                         continue
                     base = per_host[v][[x for _, x in files].index(f)]
                     r.case(("path", os.path.basename(f), v, path), nontrivial=True)
